@@ -400,6 +400,10 @@ class RequestHandler(BaseProtocol, Generic[_Request]):
             self.transport.abort()
 
         transport = self.transport
+        if transport is None and self._manager is not None:
+            # Already closed (e.g. by the keep-alive timer) but not lost yet:
+            # the server still knows the transport that may be flushing.
+            transport = self._manager._connections.get(self)
         self.force_close()
 
         if transport is not None and transport.get_write_buffer_size() > 0:
